@@ -30,12 +30,48 @@ TRACE = {ch_mod.__file__}
 OPS = ("send", "sendall", "send_stderr", "recv", "shutdown_write", "shutdown0", "shutdown1", "shutdown2", "close")
 
 
+def _find_lines():
+    """Source lines of channel.py where the internal order of 'stream ended' vs 'window reserved for
+    data' becomes visible (optional instrumentation; if the text is not found it is simply not used)."""
+    import inspect
+    out = {}
+    try:
+        src, first = inspect.getsourcelines(ch_mod.Channel)
+    except Exception:
+        return out
+    for i, line in enumerate(src):
+        t = line.strip()
+        if t == "self.eof_sent = True":
+            out[(ch_mod.__file__, first + i)] = "ended"
+        elif t == "self.closed = True":
+            out[(ch_mod.__file__, first + i)] = "ended"
+        elif t == "self.out_window_size -= size":
+            out[(ch_mod.__file__, first + i)] = "reserve"
+    tags = set(out.values())
+    return out if tags == {"ended", "reserve"} else {}
+
+
+WATCH = _find_lines()
+
+
 def sim_kw(seed):
     return {"trace_files": TRACE, "max_steps": 4_000_000, "max_time": 3600.0}
 
 
 def scenario(sim):
     sim.p_switch = (0.02, 0.1, 0.3)[sim.choose(3)]
+    internal = []
+
+    def hook(tag, frame):
+        chan = frame.f_locals.get("self")
+        internal.append((tag, id(chan)))
+    if WATCH:
+        sim.watch_lines = WATCH
+        sim.line_hook = hook
+        sim._tracer = sim._make_tracer()
+        import sys as _sys
+        _sys.settrace(sim._tracer)
+    sim.internal_order = internal
     pp = (0.0, 0.005, 0.03, 0.2)[sim.choose(4)]
     sim.max_preempt = (0, 4, 10, 400)[sim.choose(4)]
     lat = (0.0, 0.001, 0.02)[sim.choose(3)]
@@ -59,6 +95,20 @@ def episode(sim, p, link, plog, ep):
         raise RuntimeError("accept failed")
     ch.settimeout(2.0); sch.settimeout(2.0)
     ids = {"c": sch.get_id(), "s": ch.get_id()}     # recipient id in messages SENT by that side
+    exhausted = sim.choose(3) == 0
+    victim = None
+    if exhausted:
+        # one side's send window is used up before the tasks start (nobody has read yet), so its
+        # writers block and are woken only by a later WINDOW_ADJUST -- possibly after EOF/CLOSE went out
+        victim = (ch, sch)[sim.choose(2)]
+        victim.settimeout(0.2)
+        try:
+            while True:
+                victim.send(b"f" * 60000)
+        except socket.timeout:
+            pass
+        victim.settimeout(2.0)
+        sim.probe("window_exhausted_before_race")
     programs = {}
     tasks = []
     mark = sim.seq
@@ -75,7 +125,7 @@ def episode(sim, p, link, plog, ep):
                 elif op == "send_stderr":
                     chan.send_stderr(b"c" * 10)
                 elif op == "recv":
-                    chan.recv(1000)
+                    chan.recv(1000 if not exhausted else 1 << 21)
                 elif op == "shutdown_write":
                     chan.shutdown_write()
                 elif op.startswith("shutdown"):
@@ -86,6 +136,19 @@ def episode(sim, p, link, plog, ep):
                 pass
 
     for side, chan in (("c", ch), ("s", sch)):
+        if exhausted and sim.choose(2):
+            # the interesting triangle: a writer blocked on the window, someone ending the stream,
+            # and the peer reading (which produces the WINDOW_ADJUST) at about the same time
+            g = (0.0, 0.001, 0.03)
+            if chan is victim:
+                plans = [[(("send", "send_stderr", "sendall")[sim.choose(3)], 0.0)],
+                         [(("shutdown_write", "close", "shutdown2")[sim.choose(3)], g[sim.choose(3)])]]
+            else:
+                plans = [[("recv", g[sim.choose(3)])], [("recv", g[sim.choose(3)])]]
+            for k, prog in enumerate(plans):
+                programs["%s%d" % (side, k)] = prog
+                tasks.append(sim.spawn(runner, "%s-task%d" % (side, k), chan, prog))
+            continue
         for k in range(2 + sim.choose(3) if side == "c" else 1 + sim.choose(3)):
             prog = []
             for _ in range(1 + sim.choose(5)):
@@ -97,13 +160,24 @@ def episode(sim, p, link, plog, ep):
     end = sim.now + 120
     while any(t.state != core.DONE for t in tasks) and sim.now < end:
         sim.sleep(0.25)
-    desc = {"programs": programs, "latency": link.latency[0]}
+    desc = {"programs": programs, "latency": link.latency[0], "window_exhausted_first": exhausted}
     if any(t.state != core.DONE for t in tasks):
         stuck = [t.name + "@" + core.where_parked(t) for t in tasks if t.state != core.DONE]
         raise Violation(("C22", "operation-stuck") + tuple(sorted(set(s.split("-")[0] + "@" + s.split("@")[1] for s in stuck))),
                         "channel operations still blocked after 120 s: %s" % stuck, desc)
     ssh.quiesce(sim, [link], (), settle=0.25, limit=20)
     sim.sleep(T_CALL)
+    # internal order (when the instrumentation is available): no window reservation for data on a channel
+    # object after that object's stream was ended -- this is what the unchanged code guarantees under its lock
+    ended = set()
+    for tag, cid in sim.internal_order:
+        if tag == "ended":
+            ended.add(cid)
+        elif cid in ended:
+            raise Violation(("C22", "window-reserved-after-stream-ended"),
+                            "a sender reserved window for more data after EOF/CLOSE had already been decided for that channel", desc)
+    if WATCH:
+        sim.probe("internal_order_checked")
     check_wire(sim, plog, mark, ids, desc)
     # after both CLOSEs: operations fail and emit nothing
     closed_both = all(any(e[0] > mark and e[2] == s and e[3] == "tx" and e[4] == 97 and chan_of(e[5]) == ids[s] for e in plog)
